@@ -1,6 +1,8 @@
 import NanoVerif.Model.Tensor
 import NanoVerif.Proofs.TensorRemoveIf
 import NanoVerif.Proofs.TensorIntegral
+import NanoVerif.Proofs.TensorReshape
+import NanoVerif.Proofs.TensorStack
 /-!
   C16 — property theorems about the tensor addressing model (`Model/Tensor.lean`).
   Core Lean only. Helper lemmas live in this file only when they are part of the statement chain;
@@ -195,6 +197,15 @@ theorem slice_wf {α} (t : T α) (b e : Nat) (s : T α) (hwf : t.wf) (hs : t.sli
       omega
     · cases hs
 
+/-- the buffer range `[offset0(b), offset0(b) + (e - b) * size(rest))` aliased by `slice(b, e)` lies inside the
+    tensor's buffer (under the C++ assert `0 ≤ b ≤ e ≤ size<0>()`) -/
+theorem slice_in_bounds (d : Nat) (ds : List Nat) (b e : Nat) (hbe : b ≤ e ∧ e ≤ d) :
+    index (d :: ds) [b] + size ((e - b) :: ds) ≤ size (d :: ds) := by
+  simp only [index, size, Nat.add_zero]
+  have : b * size ds + (e - b) * size ds ≤ d * size ds := by
+    rw [← Nat.add_mul]; apply Nat.mul_le_mul_right; omega
+  omega
+
 /-- element `(i, q…)` of `slice(b, e)` is element `(b + i, q…)` of the tensor -/
 theorem slice_get {α} (t : T α) (b e i : Nat) (q : List Nat) (s : T α)
     (hs : t.slice b e = some s) (hq : Valid s.dims (i :: q)) :
@@ -267,6 +278,90 @@ theorem reshape_rejects_negative (total : Nat) (pre rest : List Int) (d : Int) (
   have h2 : ¬ d ≥ 0 := by omega
   simp [h1, h2]
 
+/-- an entry below `-1` anywhere in the argument list is refused -/
+theorem reshapeInfer_rejects_negative (total : Int) (d : Int) (hd : d < -1) (rest : List Int) :
+    ∀ (l acc : List Int), reshapeInfer total acc (l ++ d :: rest) = none
+  | [], acc => by
+    have h1 : ¬ d = -1 := by omega
+    have h2 : ¬ d ≥ 0 := by omega
+    simp [reshapeInfer, h1, h2]
+  | x :: l, acc => by
+    simp only [List.cons_append, reshapeInfer]
+    split
+    · split
+      · rfl
+      · exact reshapeInfer_rejects_negative total d hd rest l _
+    · split
+      · exact reshapeInfer_rejects_negative total d hd rest l _
+      · rfl
+
+/-- **the inferred dimension.** If the argument list has exactly one `-1` (at position `pre.length`), all
+    other entries are positive with product `P = size pre * size post` and `P ∣ total`, the reshape is
+    accepted and the `-1` is replaced by `total / P` (the C++ code computes `-size() / size(dimensions)` with
+    truncating division on a negative product). -/
+theorem reshape_infer_one (total : Nat) (pre post : List Nat) (hpre : ∀ d ∈ pre, 0 < d)
+    (hpost : ∀ d ∈ post, 0 < d) (hdvd : size pre * size post ∣ total) :
+    reshapeDims total (pre.map Int.ofNat ++ -1 :: post.map Int.ofNat)
+      = some (pre ++ total / (size pre * size post) :: post) := by
+  rw [reshapeDims_one total pre post hpre hpost, if_pos (Nat.mul_div_cancel' hdvd)]
+
+/-- explicit dimensions (no `-1`) are accepted exactly when their product is the number of elements -/
+theorem reshape_explicit (total : Nat) (ds : List Nat) :
+    reshapeDims total (ds.map Int.ofNat) = if size ds = total then some ds else none := by
+  unfold reshapeDims
+  have h := reshapeInfer_explicit (Int.ofNat total) ds [] []
+  simp only [List.append_nil, List.nil_append] at h
+  rw [h, reshapeInfer_nil]
+  simp only [all_nonneg_ofNat, iprod_ofNat, map_toNat_ofNat, true_and]
+  by_cases hc : size ds = total
+  · simp [hc]
+  · have : ¬ (Int.ofNat (size ds) = Int.ofNat total) := fun e => hc (Int.ofNat.inj e)
+    rw [if_neg this, if_neg hc]
+
+/-- **what is refused** (`none` = an `assert` of `treshape` fires, or the C++ code would divide by zero):
+    (1) explicit dimensions whose product is not the number of elements;
+    (2) one `-1` among positive entries whose product does not divide the number of elements;
+    (3) one `-1` together with a `0` entry (division by zero);
+    (4) any entry below `-1`. -/
+theorem reshape_rejects (total : Nat) :
+    (∀ ds : List Nat, size ds ≠ total → reshapeDims total (ds.map Int.ofNat) = none) ∧
+    (∀ pre post : List Nat, (∀ d ∈ pre, 0 < d) → (∀ d ∈ post, 0 < d) → ¬ (size pre * size post ∣ total) →
+      reshapeDims total (pre.map Int.ofNat ++ -1 :: post.map Int.ofNat) = none) ∧
+    (∀ pre post : List Nat, size pre * size post = 0 →
+      reshapeDims total (pre.map Int.ofNat ++ -1 :: post.map Int.ofNat) = none) ∧
+    (∀ (l rest : List Int) (d : Int), d < -1 → reshapeDims total (l ++ d :: rest) = none) := by
+  refine ⟨?_, ?_, ?_, ?_⟩
+  · intro ds h
+    rw [reshape_explicit, if_neg h]
+  · intro pre post hpre hpost h
+    rw [reshapeDims_one total pre post hpre hpost, if_neg]
+    intro e
+    exact h ⟨_, e.symm⟩
+  · intro pre post h0
+    unfold reshapeDims
+    have h := reshapeInfer_explicit (Int.ofNat total) pre [] (-1 :: post.map Int.ofNat)
+    rw [h, reshapeInfer]
+    simp [iprod_one_neg, h0]
+  · intro l rest d hd
+    unfold reshapeDims
+    rw [reshapeInfer_rejects_negative _ d hd rest l []]
+
+/-- full indexing in the reshaped view reads the same buffer: element `idx` of `reshape(sizes…)` is
+    `data[index newdims idx]` of the original buffer, at an offset below the tensor's size -/
+theorem reshape_get {α} (t : T α) (sizes : List Int) (s : T α) (hs : t.reshape sizes = some s)
+    (idx : List Nat) (hv : Valid s.dims idx) :
+    s.get? idx = t.data[index s.dims idx]? ∧ index s.dims idx < size t.dims := by
+  unfold T.reshape at hs
+  cases hr : reshapeDims (size t.dims) sizes with
+  | none => simp [hr] at hs
+  | some ds =>
+    simp [hr] at hs
+    cases hs
+    simp only at hv
+    have hsz := reshape_size _ _ _ hr
+    have hlt := index_lt_size ds idx hv
+    exact ⟨by simp [T.get?, hv], by simp only; omega⟩
+
 /-! ### gather (`indexed`) -/
 
 theorem gather_dims {α} (t : T α) (I : List Nat) (s : T α) (hs : t.gather I = some s) :
@@ -295,6 +390,39 @@ theorem getElem?_flatMap_blocks {α β} (f : β → List α) (n : Nat) :
     rw [h0, ← ih]
     congr 1
     rw [Nat.add_mul]; omega
+
+theorem length_flatMap_blocks {α β} (f : β → List α) (n : Nat) : ∀ (I : List β),
+    (∀ i ∈ I, (f i).length = n) → (I.flatMap f).length = I.length * n
+  | [], _ => by simp
+  | i :: I, h => by
+    have ih := length_flatMap_blocks f n I (fun x hx => h x (by simp [hx]))
+    have h0 := h i (by simp)
+    simp only [List.flatMap_cons, List.length_append, List.length_cons, ih, h0, Nat.add_mul, Nat.one_mul]
+    omega
+
+/-- the gathered tensor is well-formed: `indices.size()` sub-tensors of the input's inner size -/
+theorem gather_wf {α} (t : T α) (I : List Nat) (s : T α) (hwf : t.wf) (hs : t.gather I = some s) : s.wf := by
+  unfold T.gather at hs
+  split at hs
+  · cases hs
+  · rename_i d ds hd
+    split at hs
+    · rename_i hall
+      cases hs
+      unfold T.wf at *
+      rw [hd] at hwf
+      simp only [size] at *
+      apply length_flatMap_blocks
+      intro i hi
+      have hid : i < d := by
+        have := List.all_eq_true.mp hall i hi
+        simpa using this
+      simp only [List.length_take, List.length_drop]
+      have : i * size ds + size ds ≤ d * size ds := by
+        calc i * size ds + size ds = (i + 1) * size ds := by rw [Nat.add_mul, Nat.one_mul]
+          _ ≤ d * size ds := Nat.mul_le_mul_right _ hid
+      omega
+    · cases hs
 
 /-- element `(j, q…)` of `indexed(I)` is element `(I[j], q…)` of the tensor -/
 theorem gather_get {α} (t : T α) (I : List Nat) (s : T α) (j : Nat) (q : List Nat) (hwf : t.wf)
@@ -540,6 +668,61 @@ theorem integral_rank2 (r c : Nat) (xs : List Int) (hl : xs.length = r * c) (i k
       simp [List.getD, List.getElem?_eq_getElem (hl ▸ this)])).2 [i, k] ⟨hi, hk, trivial⟩
   simpa [index, size, boxSum] using this
 
+/-! ### matrix form of `stack` -/
+
+/-- **every block lands where the layout says.** If `stack(rows, cols, blocks…)` is accepted (no assert
+    fires) and the blocks are compatible in size (`StackAligned`: a block continuing a block-row has the height
+    of its left neighbour), the result is a `rows × cols` buffer in which element `(r, c)` of block `k` sits
+    at `(row0 + r, col0 + c)`, `(row0, col0) = stackPos[k]` being the position the wrap rule assigns to the
+    block — inside the matrix, and not overwritten by any later block. -/
+theorem stack_block_get {α} (fill : α) (rows cols : Nat) (blocks : List (Block α)) (M : List α)
+    (hal : StackAligned cols blocks 0) (h : stackMat fill rows cols blocks = some M) :
+    M.length = rows * cols ∧
+    ∀ (k : Nat) (bk : Block α) (row0 col0 : Nat), blocks[k]? = some bk →
+      (stackPos cols blocks 0 0)[k]? = some (row0, col0) →
+      ∀ r c, r < bk.rows → c < bk.cols →
+        M[(row0 + r) * cols + (col0 + c)]? = bk.data[r * bk.cols + c]? ∧ row0 + r < rows ∧ col0 + c < cols := by
+  cases blocks with
+  | nil => simp [stackMat] at h
+  | cons b bs =>
+    simp only [stackMat] at h
+    obtain ⟨h1, _, h3⟩ := stackMatGo_spec rows cols bs b 0 0 _ M hal h (by simp)
+    exact ⟨h1, h3⟩
+
+/-- vector form of `stack`: the result has the requested size and segment `k` starts where the previous
+    segments end (`vector.segment(row, block.size()) = block`, `row` = sum of the earlier sizes) -/
+theorem stackVec_get {α} (n : Nat) (blocks : List (List α)) (v : List α) (h : stackVec n blocks = some v) :
+    v.length = n ∧ ∀ (k : Nat) (blk : List α) (i : Nat), blocks[k]? = some blk → i < blk.length →
+      v[(blocks.take k).flatten.length + i]? = blk[i]? := by
+  unfold stackVec at h
+  simp only at h
+  split at h
+  · rename_i hl
+    cases h
+    refine ⟨hl, ?_⟩
+    intro k blk i hk hi
+    have hk' : k < blocks.length := (List.getElem?_eq_some_iff.1 hk).1
+    have hsplit : blocks = blocks.take k ++ blk :: blocks.drop (k + 1) := by
+      have hg : blocks[k] = blk := (List.getElem?_eq_some_iff.1 hk).2
+      rw [← hg, ← List.drop_eq_getElem_cons hk', List.take_append_drop]
+    have hf : blocks.flatten = (blocks.take k).flatten ++ (blk ++ (blocks.drop (k + 1)).flatten) := by
+      conv => lhs; rw [hsplit]
+      simp
+    rw [hf, List.getElem?_append_right (by omega), Nat.add_sub_cancel_left, List.getElem?_append_left hi]
+  · cases h
+
+/-- the first block-row of the header's example: two blocks side by side, then a full-width block below -/
+example : stackMat (0 : Int) 3 3 [⟨2, 2, [1, 2, 3, 4]⟩, ⟨2, 1, [5, 6]⟩, ⟨1, 3, [7, 8, 9]⟩]
+    = some [1, 2, 5, 3, 4, 6, 7, 8, 9] := by decide
+example : stackPos 3 [(⟨2, 2, [1, 2, 3, 4]⟩ : Block Int), ⟨2, 1, [5, 6]⟩, ⟨1, 3, [7, 8, 9]⟩] 0 0
+    = [(0, 0), (0, 2), (2, 0)] := by decide
+example : StackAligned 3 [(⟨2, 2, [1, 2, 3, 4]⟩ : Block Int), ⟨2, 1, [5, 6]⟩, ⟨1, 3, [7, 8, 9]⟩] 0 :=
+  ⟨fun _ => rfl, fun h => absurd h (by decide), trivial⟩
+example : stackVec 5 [[1, 2], [], [3, 4, 5]] = some [1, 2, 3, 4, 5] ∧ stackVec 4 [[1, 2], [3, 4, 5]] = none := by
+  decide
+-- refused: the last block does not end at the bottom-right corner
+example : stackMat (0 : Int) 3 3 [⟨2, 2, [1, 2, 3, 4]⟩, ⟨2, 1, [5, 6]⟩] = none := by decide
+
 /-! ### non-vacuity: the shape of the unit test, and a shape with a 0 and a 1 dimension -/
 
 example : Valid [3, 7, 5, 4] [2, 6, 4, 3] ∧ index [3, 7, 5, 4] [2, 6, 4, 3] = 419 ∧ size [3, 7, 5, 4] = 420 := by
@@ -548,9 +731,17 @@ example : ValidPrefix [3, 7, 5, 4] [2, 6] ∧ index [3, 7, 5, 4] [2, 6] + size (
   decide
 example : LexLt [1, 6, 4, 3] [2, 0, 0, 0] ∧ index [3, 7, 5, 4] [1, 6, 4, 3] + 1 = index [3, 7, 5, 4] [2, 0, 0, 0] :=
   ⟨Or.inl (by decide), by decide⟩
+example : ((T.slice ⟨[4, 2], [0, 1, 2, 3, 4, 5, 6, 7]⟩ 1 3).map fun s => (s.dims, s.data)) = some ([2, 2], [2, 3, 4, 5])
+    ∧ ((T.gather ⟨[4, 2], [0, 1, 2, 3, 4, 5, 6, 7]⟩ [3, 0, 3]).map fun s => (s.dims, s.data))
+        = some ([3, 2], [6, 7, 0, 1, 6, 7])
+    ∧ ((T.reshape ⟨[4, 2], [0, 1, 2, 3, 4, 5, 6, 7]⟩ [2, -1, 2]).map fun s => (s.dims, s.data))
+        = some ([2, 2, 2], [0, 1, 2, 3, 4, 5, 6, 7]) := by
+  decide
 example : size [2, 0, 1] = 0 ∧ ¬ Valid [2, 0, 1] [0, 0, 0] := by decide
 example : reshapeDims 24 [2, -1, 3] = some [2, 4, 3] := by decide
 example : reshapeDims 24 [5, -1] = none := by decide
+example : reshapeDims 24 [4, 5] = none ∧ reshapeDims 24 [0, -1] = none ∧ reshapeDims 24 [-2, 12] = none
+    ∧ reshapeDims 0 [3, -1, 2] = some [3, 0, 2] ∧ reshapeDims 24 [-1] = some [24] := by decide
 -- integral: 2x3 table, a rank-3 table, and the specification side evaluated on a 2x3 box
 example : integralData [2, 3] [1, 2, 3, 4, 5, 6] = [1, 3, 6, 5, 12, 21] := by decide
 example : (T.integral ⟨[2, 2, 2], [1, 1, 1, 1, 1, 1, 1, -7]⟩).data = [1, 2, 2, 4, 2, 4, 4, 0] := by decide
